@@ -670,6 +670,8 @@ impl RocksDBStateMachine {
             }
             entries.push((Bytes::copy_from_slice(&k), Bytes::copy_from_slice(&v)));
         }
+        #[cfg(d_engine_verif)]
+        d_engine_core::verif::point("rsm_scan:after_iter", None, 0, 0);
 
         let revision = self.last_applied_index.load(Ordering::SeqCst);
         Ok(ScanResult { entries, revision })
